@@ -9,6 +9,7 @@ ThermochemGroup/Incomplete/RawData, Group.parse.  Stubs: SimFS (files exist
 only in memory) with a fault plan.  Reference model: storegen.model_*.
 """
 import copy
+import random
 import os
 
 from sim import core
@@ -1464,6 +1465,15 @@ def plan(tier, verif_seed, prop):
     seeds = [core.H(verif_seed, prop, j) for j in range(n)]
     tasks = [{'id': '%s-w-%d' % (prop, j), 'prop': prop,
               'seeds': seeds[j:j + chunk]} for j in range(0, n, chunk)]
+    if prop == 'C12':
+        nt = {'quick': 120, 'thorough': 4000}[tier]
+        ts = [core.H(verif_seed, 'C12-tref', j) for j in range(nt)]
+        tasks.append({'id': 'C12-tref-fixed', 'prop': prop,
+                      'tref_fixed': list(range(len(TREF_FIXED)))})
+        for j in range(0, nt, 40 if tier == 'quick' else 200):
+            tasks.append({'id': 'C12-tref-%d' % j, 'prop': prop,
+                          'tref_seeds': ts[j:j + (40 if tier == 'quick'
+                                                  else 200)]})
     if prop == 'C18':
         from .c15_history import SHIPPED
         libs = SHIPPED if tier == 'thorough' else SHIPPED
@@ -1494,6 +1504,9 @@ def execute_spec(spec):
         r = run_shipped_export({'id': 'replay', 'shipped': spec['shipped'],
                                 'only': spec.get('group')})
         return r['violations'], r['digest'], None
+    if 'tref_split' in spec:
+        r = run_tref_split(spec['tref_split'], 'replay')
+        return r['violations'], r['digest'], None
     for h in spec_history(spec):
         Machine(h, h['property']).run()
     m = Machine(spec, spec['property']).run()
@@ -1516,6 +1529,13 @@ def run_task(task):
     prop = task['prop']
     if 'shipped' in task:
         return [run_shipped_export(task)]
+    if 'tref_fixed' in task:
+        return [run_tref_split(gen_tref_split(
+            core.H('tref-fixed', i), TREF_FIXED[i]), 'C12-tref-fixed-%d' % i)
+            for i in task['tref_fixed']]
+    if 'tref_seeds' in task:
+        return [run_tref_split(gen_tref_split(sd), 'C12-tref-%d' % sd)
+                for sd in task['tref_seeds']]
     results = []
     for pos, seed in enumerate(task['seeds']):
         spec = gen_spec(seed, prop)
@@ -1635,6 +1655,216 @@ def run_shipped_export(task):
                        'exports': n}}
 
 
+# ------------------------------------------- C12: split reference temperature
+TREF_FIXED = [
+    # (T1 of the file with the heat capacities, T2 of the file with the
+    #  reference values, spelling of T2)
+    (298.15, 298.0, 'K'), (298.15, 298.0, 'kK'), (298.0, 298.15, 'K'),
+    (298.15, 298.16, 'K'), (300.0, 299.85, 'K'), (298.15, 273.15, 'K'),
+    (298.15, 400.0, 'K'), (500.0, 500.25, 'K'),
+]
+
+
+def gen_tref_split(seed, fixed=None):
+    """One group whose heat capacities (and range) are in one file under
+    one reference temperature and whose reference enthalpy / entropy are in
+    another file under another one; the same data in one file is the
+    reference presentation."""
+    rng = random.Random(seed)
+    if fixed is not None:
+        T1, T2, tunit = fixed
+    else:
+        T1 = rng.choice([298.15, 298.0, 300.0, 273.15, 500.0, 350.0])
+        d = rng.choice([0.15, -0.15, 0.01, -0.01, 0.25, -0.25, 1.85, -1.85,
+                        0.001, 25.0, -25.0, 100.0, 0.05, -0.3])
+        T2 = round(T1 + d, 6)
+        tunit = rng.choice(['K', 'K', 'kK', 'mK'])
+    lo = min(T1, T2) - rng.choice([0.0, 10.0, 73.0])
+    hi = max(T1, T2) + rng.choice([200.0, 500.0, 1000.0])
+    # Heat capacities as measured ones look: a slowly varying curve on
+    # evenly spread temperatures.  (A spline through unrelated values at
+    # crowded temperatures oscillates, and pgradd's entropy -- a numerical
+    # quadrature -- is then itself only good to 1e-5: seen while building
+    # this stratum, see DESIGN 8.4.)
+    n = rng.randint(3, 7)
+    ts = [round(lo + (hi - lo) * i / (n - 1.0), 1) for i in range(n)]
+    ts[0], ts[-1] = lo, hi
+    a, b, c = rng.uniform(2.0, 12.0), rng.uniform(0.0, 14.0), \
+        rng.uniform(-3.0, 1.0)
+    cp = [[t, sg.sig(a + b * (t / 1000.0) + c * (t / 1000.0) ** 2, 8)]
+          for t in ts]
+    which = rng.choice(['HS', 'HS', 'H', 'S'])
+    H = sg.sig(rng.uniform(-90.0, 90.0), 10) if 'H' in which else None
+    S = sg.sig(rng.uniform(-5.0, 60.0), 10) if 'S' in which else None
+    if rng.random() < 0.15:
+        if H is not None:
+            H = 0.0
+        elif S is not None:
+            S = 0.0
+    return {'T1': T1, 'T2': T2, 'tunit': tunit, 'cp': cp,
+            'range': [lo, hi], 'H': H, 'S': S,
+            'form': rng.choice(['nd', 'kJ', 'kcal', 'J']),
+            'cp_in': rng.choice(['parent', 'parent', 'include']),
+            'extra_in_part': rng.random() < 0.3}
+
+
+def _tref_files(sc):
+    fac = {'K': 1.0, 'kK': 1000.0, 'mK': 0.001}[sc['tunit']]
+    t2 = '%s %s' % (sg.fmt(float(repr(sc['T2'] / fac))), sc['tunit'])
+    if abs(float(repr(sc['T2'] / fac)) * fac - sc['T2']) > 0:
+        # the spelling must be the same temperature in both presentations;
+        # it is (the same text is used), the number need not survive exactly
+        pass
+    units = ('units:\n    molar enthalpy: kJ/mol\n'
+             '    molar entropy: J/(mol*K)\n'
+             '    molar heat capacity: J/(mol*K)\n    temperature: K\n\n')
+    G = "    'C(C)':\n        'thermochem':\n"
+    cp_rows = ''.join('                - [%s, %s]\n' % (sg.fmt(t), sg.fmt(v))
+                      for t, v in sc['cp'])
+    rng_line = '            range: [%s, %s]\n' % (sg.fmt(sc['range'][0]),
+                                                 sg.fmt(sc['range'][1]))
+
+    def refs(form):
+        out = ''
+        # T2 as pgradd reads the spelling (the reference values are
+        # non-dimensionalised by the reference temperature of their entry)
+        T2 = float(repr(sc['T2'] / fac)) * fac
+        for d, v in (('H', sc['H']), ('S', sc['S'])):
+            if v is None:
+                continue
+            if form == 'nd':
+                out += '            ND_%s_ref: %s\n' % (d, sg.fmt(v))
+            else:
+                f = {'kJ': 1000.0, 'kcal': 4184.0, 'J': 1.0}[form]
+                si = v * sg.R_GAS * (T2 if d == 'H' else 1.0)
+                u = {'kJ': 'kJ/mol', 'kcal': 'kcal/mol', 'J': 'J/mol'}[form]
+                if d == 'S':
+                    u += '/K'
+                out += '            %s_ref: %s %s\n' % (
+                    d, sg.fmt(float(repr(si / f))), u)
+        return out
+    cp_block = '            ND_Cp_data:\n' + cp_rows + rng_line
+    t1_line = '            T_ref: %s\n' % sg.fmt(sc['T1'])
+    t2_line = '            T_ref: %s\n' % t2
+    if sc['cp_in'] == 'parent':
+        parent_g = G + t1_line + cp_block
+        part_g = G + t2_line + refs(sc['form'])
+    else:
+        parent_g = G + t2_line + refs(sc['form'])
+        part_g = G + t1_line + cp_block
+    if sc.get('extra_in_part'):
+        part_g += ("    'C(H)':\n        'thermochem':\n"
+                   "            T_ref: 298.15\n            ND_S_ref: 1.5\n")
+    split = ROOT + '/split'
+    one = ROOT + '/one'
+    files = {
+        split + '/scheme.yaml': sg.SCHEME_TEXT,
+        one + '/scheme.yaml': sg.SCHEME_TEXT,
+        split + '/library.yaml': units + 'include:\n    - part.yaml\n\n'
+        'groups:\n' + parent_g,
+        split + '/part.yaml': units + 'groups:\n' + part_g,
+        one + '/library.yaml': units + 'groups:\n' + G + t2_line +
+        refs(sc['form'] if sc['form'] != 'nd' else 'nd') + cp_block,
+        ROOT + '/one-nd/scheme.yaml': sg.SCHEME_TEXT,
+        ROOT + '/one-nd/library.yaml': units + 'groups:\n' + G + t2_line +
+        refs('nd') + cp_block,
+    }
+    return files
+
+
+def run_tref_split(sc, rid):
+    """The reference values of a group and its heat capacities come from
+    files with different reference temperatures: what is loaded must
+    evaluate like the same data given in one file (there the reference
+    temperature is the one the reference values were given at)."""
+    from pgradd.GroupAdd.Library import GroupLibrary
+    fs = SimFS()
+    fs.files = _tref_files(sc)
+    log = core.EventLog()
+    viols = []
+    probes = {}
+    near = abs(sc['T1'] - sc['T2']) < 1.0
+    probes['tref_split_' + ('near' if near else 'far')] = 1
+    undo = fs.install()
+    try:
+        corrs = {}
+        for name in ('split', 'one', 'one-nd'):
+            out, lib = libops.record(GroupLibrary.Load,
+                                     '%s/%s/library.yaml' % (ROOT, name))
+            log.add('load', which=name, exc=out.get('exc'))
+            if lib is None:
+                viols.append(core.violation(
+                    'C12', 'presentation-independence', 'load-failed',
+                    'split-reference-temperature|load-failed|%s|%s'
+                    % (name, out.get('exc')),
+                    {'scenario': sc, 'outcome': out}))
+                continue
+            corrs[name] = libops.pset(lib['C(C)'], 'thermochem')
+            if corrs[name] is None:
+                raise RuntimeError('split-reference-temperature: the '
+                                   'property-set type is not registered '
+                                   '(harness)')
+        if len(corrs) == 3:
+            lo, hi = sc['range']
+            temps = [sc['T1'], sc['T2'], lo + (hi - lo) * 1e-9,
+                     hi - (hi - lo) * 1e-9, 0.5 * (lo + hi)]
+            temps += [t for t, _ in sc['cp'][1:3]]
+            ps = dict((k, props(c, temps)) for k, c in corrs.items())
+            scale = 1.0 + max([abs(v) for _, v in sc['cp']] +
+                              [abs(x) for x in (sc['H'], sc['S'])
+                               if x is not None])
+            for name in ('split', 'one'):
+                bad = nonplain_props(ps[name])
+                if bad:
+                    viols.append(core.violation(
+                        'C12', 'plain-numbers', 'non-plain',
+                        'split-reference-temperature|not-a-plain-number|%s'
+                        % bad[0].split('@')[0],
+                        {'scenario': sc, 'at': bad[0]}))
+            for a, b in (('split', 'one'), ('one', 'one-nd')):
+                # The entropy is a numerical quadrature in pgradd
+                # (scipy quad, default tolerances 1.49e-8): across two
+                # reference temperatures it is the sum of two such
+                # integrals instead of one, and only equal to that
+                # tolerance; enthalpy and heat capacity are analytic.
+                d = []
+                for meth, rel, ab in (('get_SoR', 1e-6, 1e-7),
+                                      ('get_HoRT', 1e-9, 1e-10),
+                                      ('get_CpoR', 1e-9, 1e-10)):
+                    sel = lambda p: dict((k, v) for k, v in p.items()
+                                         if k.startswith(meth + '@'))
+                    d += diff_props(sel(ps[a]), sel(ps[b]), rel=rel,
+                                    abs_=ab * scale)
+                for key, x, y in sorted(d)[:1]:
+                    viols.append(core.violation(
+                        'C12', 'presentation-independence', 'props-differ',
+                        'split-reference-temperature|%s-vs-%s|evaluates-'
+                        'differently|%s|%s' % (a, b, key.split('@')[0],
+                                               'near' if near else 'far'),
+                        {'scenario': sc, 'at': key, a: x, b: y}))
+            log.add('props', p=core.digest(ps['split'])[:12])
+    finally:
+        undo()
+    by = {}
+    kept = []
+    for v in viols:
+        by[v['signature']] = by.get(v['signature'], 0) + 1
+        if by[v['signature']] == 1:
+            v['spec'] = {'property': 'C12', 'tref_split': sc}
+            v['run'] = rid
+            kept.append(v)
+    return {'id': rid, 'digest': log.digest(), 'violations': kept,
+            'violation_counts': by,
+            'stats': {'ops': 4, 'loads': 3, 'merges': 1}, 'probes': probes,
+            'fired': {}, 'shape': core.digest(
+                [sc['T1'], sc['T2'], sc['tunit'], sc['form'], sc['cp_in'],
+                 len(sc['cp']), sc['H'] is None, sc['S'] is None])[:16],
+            'nontrivial': True, 'faulted': False,
+            'strata': ['split_reference_temperature'],
+            'sample': {'tref_split': sc}}
+
+
+
 def summarise(results, prop):
     stats = {'ops': 0, 'loads': 0, 'merges': 0}
     probes = {}
@@ -1701,7 +1931,7 @@ def _forked(fn, timeout=900):
 
 
 def shrink(spec, signature):
-    if 'shipped' in spec:
+    if 'shipped' in spec or 'tref_split' in spec:
         return spec
     hist = spec_history(spec)
     spec = dict((k, v) for k, v in spec.items() if k != 'history_task')
